@@ -298,12 +298,15 @@ int vh_key_gen(vh_key_t *k, const char *spec, vh_rng_t *r)
 {
 	memset(k, 0, sizeof(*k));
 	snprintf(k->name, sizeof(k->name), "%s", spec);
-	if (!strncmp(spec, "oct:", 4) || !strncmp(spec, "octpad:", 7) || !strncmp(spec, "octjunk:", 8)) {
+	if (!strncmp(spec, "oct:", 4) || !strncmp(spec, "octpad:", 7) || !strncmp(spec, "octjunk:", 8) || !strncmp(spec, "octnl:", 6) || !strncmp(spec, "octz:", 5)) {
 		k->kind = VH_K_OCT;
-		k->padmode = spec[3] == ':' ? 0 : spec[3] == 'p' ? 1 : 2;
+		k->padmode = spec[3] == ':' || spec[3] == 'n' || spec[3] == 'z' ? 0 : spec[3] == 'p' ? 1 : 2;
 		k->octlen = (size_t)atoi(strchr(spec, ':') + 1);
 		k->oct = malloc(k->octlen + 1);
 		vh_rand_bytes(r, k->oct, k->octlen);
+		/* octnl: key bytes that end in a line feed (as `echo secret | base64` makes them); octz: first and last byte zero */
+		if (spec[3] == 'n' && k->octlen) k->oct[k->octlen - 1] = 0x0a;
+		if (spec[3] == 'z' && k->octlen) k->oct[0] = k->oct[k->octlen - 1] = 0;
 		k->bits = (int)k->octlen * 8;
 		return 0;
 	}
